@@ -30,10 +30,14 @@ pub struct Case {
     /// and every transfer start publishes a new instance from inside read()
     #[serde(default)]
     pub obt: bool,
+    /// maximum source block length of every object (0 = the default 2)
+    #[serde(default)]
+    pub b: u16,
 }
 
-/// object lengths with E=4, B=2: empty, 1 symbol, 2 blocks (4 symbols), 3 blocks (6 symbols)
-pub const SIZES: [usize; 4] = [0, 3, 13, 21];
+/// object lengths with E=4, B=2: empty, 1 symbol, 2 blocks (4 symbols), 3 blocks (6 symbols); from index 4
+/// on: 1, 2, ... 14 symbols (used by the interleaving family with B = 1..4)
+pub const SIZES: [usize; 18] = [0, 3, 13, 21, 4, 7, 11, 15, 19, 23, 27, 31, 35, 39, 43, 47, 51, 55];
 
 #[derive(Default, Clone)]
 pub struct G {
@@ -61,6 +65,7 @@ pub fn run_case(c: &Case, g: &mut G) -> Option<(String, String)> {
         let mut sess = SessSpec::basic(OtiSpec::new(Scheme::NoCode, 1424, 64, 0, true));
         sess.interleave = c.interleave;
         sess.full_fdt = !c.obt;
+        let bb: u16 = if c.b == 0 { 2 } else { c.b };
         let mux = |q: usize| -> u32 { c.multiplex_per_queue.as_ref().map(|v| v[q]).unwrap_or(c.multiplex) };
         sess.queues = (0..c.queues.len()).map(|q| (q as u32, mux(q))).collect();
         // catalogue in add order
@@ -74,13 +79,13 @@ pub fn run_case(c: &Case, g: &mut G) -> Option<(String, String)> {
         }
         for (i, (q, s)) in order.iter().enumerate() {
             let mut o = ObjSpec::simple(SIZES[*s as usize], i as u8 + 1);
-            o.oti = Some(if c.scheme_rs { OtiSpec::new(Scheme::Rs28, 4, 2, 1, true) } else { OtiSpec::new(Scheme::NoCode, 4, 2, 0, true) });
+            o.oti = Some(if c.scheme_rs { OtiSpec::new(Scheme::Rs28, 4, bb, 1, true) } else { OtiSpec::new(Scheme::NoCode, 4, bb, 0, true) });
             o.prio = *q as u32;
             cat.push(o);
         }
         if let Some((_, q)) = c.late {
             let mut o = ObjSpec::simple(SIZES[2], 99);
-            o.oti = Some(if c.scheme_rs { OtiSpec::new(Scheme::Rs28, 4, 2, 1, true) } else { OtiSpec::new(Scheme::NoCode, 4, 2, 0, true) });
+            o.oti = Some(if c.scheme_rs { OtiSpec::new(Scheme::Rs28, 4, bb, 1, true) } else { OtiSpec::new(Scheme::NoCode, 4, bb, 0, true) });
             o.prio = q as u32;
             cat.push(o);
         }
@@ -119,7 +124,7 @@ pub fn run_case(c: &Case, g: &mut G) -> Option<(String, String)> {
         let symbols = |size: usize| -> usize {
             let t = size.div_ceil(4);
             if c.scheme_rs {
-                t + t.div_ceil(2)
+                t + t.div_ceil(bb as usize)
             } else {
                 t
             }
@@ -218,7 +223,7 @@ pub fn run_case(c: &Case, g: &mut G) -> Option<(String, String)> {
                     objs.get_mut(&p.toi).unwrap().emitted += 1;
                     // (5) block interleaving
                     let total_in_block = |sbn: u32, size: usize| -> usize {
-                        let part = rfc::partition(2, size as u128, 4).unwrap();
+                        let part = rfc::partition(bb as u128, size as u128, 4).unwrap();
                         let k = part.symbols_of(sbn as u128) as usize;
                         if c.scheme_rs {
                             k + 1
@@ -356,21 +361,35 @@ pub fn run(thorough: bool) -> i32 {
                         if scheme_rs && (interleave == 1 || !thorough && multiplex != 2) {
                             continue;
                         }
-                        cases.push(Case { queues: w.clone(), multiplex, interleave, reverse_add, scheme_rs, late: None, multiplex_per_queue: None, obt: false });
+                        cases.push(Case { queues: w.clone(), multiplex, interleave, reverse_add, scheme_rs, late: None, multiplex_per_queue: None, obt: false, b: 0 });
                         if !scheme_rs && interleave <= 2 {
-                            cases.push(Case { queues: w.clone(), multiplex, interleave, reverse_add, scheme_rs, late: None, multiplex_per_queue: None, obt: true });
+                            cases.push(Case { queues: w.clone(), multiplex, interleave, reverse_add, scheme_rs, late: None, multiplex_per_queue: None, obt: true, b: 0 });
                         }
                         // one deviation: add+publish one more object at every packet index, into every queue
                         if multiplex <= 2 && interleave <= 2 && !scheme_rs {
                             for i in 0..=(total + 1).min(if thorough { 14 } else { 8 }) {
                                 for q in 0..w.len() {
-                                    cases.push(Case { queues: w.clone(), multiplex, interleave, reverse_add, scheme_rs, late: Some((i, q)), multiplex_per_queue: None, obt: false });
+                                    cases.push(Case { queues: w.clone(), multiplex, interleave, reverse_add, scheme_rs, late: Some((i, q)), multiplex_per_queue: None, obt: false, b: 0 });
                                     if w.len() >= 2 && multiplex == 1 && interleave == 1 {
-                                        cases.push(Case { queues: w.clone(), multiplex, interleave, reverse_add, scheme_rs, late: Some((i, q)), multiplex_per_queue: None, obt: true });
+                                        cases.push(Case { queues: w.clone(), multiplex, interleave, reverse_add, scheme_rs, late: Some((i, q)), multiplex_per_queue: None, obt: true, b: 0 });
                                     }
                                 }
                             }
                         }
+                    }
+                }
+            }
+        }
+    }
+    // block interleaving on its own: one object (and two multiplexed ones) of 1..14 symbols cut into blocks of
+    // at most 1..4 symbols, window 1..4 (5 thorough): more blocks than the window, equal and unequal blocks
+    for bsz in 1..=4u16 {
+        for size in 4..18u8 {
+            for interleave in 1..=(if thorough { 5u8 } else { 4 }) {
+                for scheme_rs in [false, true] {
+                    cases.push(Case { queues: vec![vec![size]], multiplex: 1, interleave, reverse_add: false, scheme_rs, late: None, multiplex_per_queue: None, obt: false, b: bsz });
+                    if size % 3 == 0 {
+                        cases.push(Case { queues: vec![vec![size, size - 1]], multiplex: 2, interleave, reverse_add: false, scheme_rs, late: None, multiplex_per_queue: None, obt: false, b: bsz });
                     }
                 }
             }
@@ -391,7 +410,7 @@ pub fn run(thorough: bool) -> i32 {
                 if !thorough && interleave == 2 {
                     continue;
                 }
-                cases.push(Case { queues: w.clone(), multiplex: 0, interleave, reverse_add: false, scheme_rs: false, late: None, multiplex_per_queue: Some(v.clone()), obt: false });
+                cases.push(Case { queues: w.clone(), multiplex: 0, interleave, reverse_add: false, scheme_rs: false, late: None, multiplex_per_queue: Some(v.clone()), obt: false, b: 0 });
             }
         }
     }
